@@ -7,10 +7,14 @@ package regprocessor
 
 import (
 	"crypto/ed25519"
+	"crypto/rand"
+	"encoding/hex"
 	"net"
+	"strings"
 	"sync"
 
 	zmq "github.com/pebbe/zmq4"
+	"github.com/refraction-networking/conjure/pkg/core"
 	"github.com/refraction-networking/conjure/pkg/core/interfaces"
 	"github.com/refraction-networking/conjure/pkg/metrics"
 	"github.com/refraction-networking/conjure/pkg/phantoms"
@@ -21,6 +25,7 @@ import (
 	"github.com/refraction-networking/conjure/pkg/transports/wrapping/obfs4"
 	"github.com/refraction-networking/conjure/pkg/transports/wrapping/prefix"
 	pb "github.com/refraction-networking/conjure/proto"
+	"google.golang.org/protobuf/proto"
 )
 
 type VerifSender struct {
@@ -103,4 +108,75 @@ func (p *RegProcessor) VerifProcessBdReq(c *pb.C2SWrapper) (*pb.RegistrationResp
 
 func (p *RegProcessor) VerifProcessC2SWrapper(c *pb.C2SWrapper, addr []byte, src pb.RegistrationSource) ([]byte, error) {
 	return p.processC2SWrapper(c, addr, src)
+}
+
+// VerifAuth: whether the processor signs registration responses, and the length of its private key.
+func (p *RegProcessor) VerifAuth() (bool, int) { return p.authenticated, len(p.privkey) }
+
+// VerifSetPrivkey replaces the signing key (a configuration value; ed25519.Sign panics on a key that is
+// not 64 bytes long - the partial operation of the model of processC2SWrapper).
+func (p *RegProcessor) VerifSetPrivkey(k []byte) { p.privkey = k }
+
+// VerifBdLine: the parameters of the Lean model of processBdReq (`ingress|bdreq|…`) for this wrapper. Each
+// is computed on its own by the component processBdReq calls (GenSharedKeys, the selector, the transport
+// table, ParseParams, the overrides, GetDstPort) on a copy of the wrapper; WHICH of them are consulted, in
+// which order, and what is done with the selected addresses is the model's business.
+func (p *RegProcessor) VerifBdLine(w0 *pb.C2SWrapper) string {
+	b := func(x bool) string {
+		if x {
+			return "1"
+		}
+		return "0"
+	}
+	hx := func(x []byte) string {
+		if len(x) == 0 {
+			return "-"
+		}
+		return hex.EncodeToString(x)
+	}
+	var w *pb.C2SWrapper
+	if w0 != nil {
+		w = proto.Clone(w0).(*pb.C2SWrapper)
+	}
+	c2s := w.GetRegistrationPayload()
+	ver := uint(c2s.GetClientLibVersion())
+	keys, kerr := core.GenSharedKeys(ver, w.GetSharedSecret(), c2s.GetTransport())
+	sel4, sel6 := "E", "E"
+	randPort := true
+	if kerr == nil {
+		p.selectorMutex.RLock()
+		selector := p.ipSelector
+		p.selectorMutex.RUnlock()
+		if ph, err := selector.Select(keys.ConjureSeed, uint(c2s.GetDecoyListGeneration()), ver, false); err == nil {
+			sel4 = hx(*ph.IP())
+			if c2s.GetV4Support() {
+				randPort = ph.SupportRandomPort()
+			}
+		}
+		if ph, err := selector.Select(keys.ConjureSeed, uint(c2s.GetDecoyListGeneration()), ver, true); err == nil {
+			sel6 = hx(*ph.IP())
+			if c2s.GetV6Support() {
+				randPort = randPort && ph.SupportRandomPort()
+			}
+		}
+	}
+	t, known := p.transports[c2s.GetTransport()]
+	paramsOk, overrideOk, dstOk := false, true, false
+	if known {
+		params, err := t.ParseParams(ver, c2s.GetTransportParams())
+		paramsOk = err == nil
+		if paramsOk && kerr == nil {
+			dstOk = true
+			if randPort {
+				_, err := t.GetDstPort(ver, keys.ConjureSeed, params)
+				dstOk = err == nil
+			}
+		}
+	}
+	if w != nil && c2s != nil && p.regOverrides != nil && !c2s.GetDisableRegistrarOverrides() {
+		w.RegistrationResponse = &pb.RegistrationResponse{}
+		overrideOk = p.regOverrides.Override(w, rand.Reader) == nil
+	}
+	return strings.Join([]string{"ingress", "bdreq", b(c2s != nil), b(kerr == nil), b(c2s.GetV4Support()), b(c2s.GetV6Support()),
+		sel4, sel6, b(known), b(paramsOk), b(overrideOk), b(dstOk)}, "|")
 }
